@@ -91,7 +91,11 @@ def data_vectors(P, rng, n):
     for a, b in zip(xs, xs[1:]):
         pts += [0.5 * (a + b), a + 0.25 * (b - a)]
     span = (xs[-1] - xs[0]) or 1.0
-    pts += [xs[0] - span, xs[-1] + span, xs[0] - 1e3 * span, xs[-1] + 1e3 * span, xs[0] - 1e-3, xs[-1] + 1e-3]
+    # guaranteed share of every table: several inputs below the first abscissa, exactly on the first / last
+    # abscissa (above), and several beyond the last abscissa (extrapolation branches on both sides)
+    for k in (1e-3, 0.37, 1.0, 7.5, 1e3):
+        pts += [xs[0] - k * span, xs[-1] + k * span]
+    pts += [xs[0] - rng.uniform(0.0, 2.0) * span, xs[-1] + rng.uniform(0.0, 2.0) * span]
     while len(pts) < n:
         pts.append(rng.uniform(xs[0] - 0.3 * span, xs[-1] + 0.3 * span))
     return [[x] for x in pts]
@@ -393,6 +397,7 @@ REPO_FILES = [
     ("YoungModulusTest", "YoungModulusTest", 0, [], lambda a, p: 7.8e+10, None),
     ("ThermalExpansionCoefficientTest2", "ThermalExpansionCoefficientTest2", 1, [],
      lambda a, p: 2.e-5 * (1 + (a[0] - 273.15) / 500), (1.0, 1500.0)),
+    ("LinearDataInterpolationTest", "LinearDataInterpolationTest", 1, [], tab_ref("linear", True), (1.0, 1500.0)),
     ("LinearDataInterpolationTest5", "LinearDataInterpolationTest5", 1, [], tab_ref("linear", False), (1.0, 1500.0)),
     ("CubicSplineDataInterpolationTest3", "CubicSplineDataInterpolationTest3", 1, [], tab_ref("cubic_spline", True),
      (1.0, 1500.0)),
@@ -474,6 +479,56 @@ def _repo_case(entry):
     return fn, None, worst
 
 
+def fixed_tables(seed):
+    """a guaranteed share of every run: @Data programs with >= 3 points that are not aligned, for both
+    interpolation schemes, extrapolation on (default and explicit) and off; structure fixed, values from the seed"""
+    rng = random.Random(seed * 104729 + 37)
+
+    def lit(nd, emin, emax, signed=True):
+        m = rng.randint(10 ** (nd - 1), 10 ** nd - 1)
+        e = rng.randint(emin, emax)
+        ms = str(m)
+        return ("-" if signed and rng.random() < 0.5 else "") + ms[0] + "." + (ms[1:] or "0") + ("e%d" % e if e else "")
+    out = []
+    for interp, extrap, n in ((None, None, 3), ("linear", True, 5), ("linear", None, 8), ("linear", False, 4),
+                              ("linear", "bound_to_last_value", 3), ("cubic_spline", None, 3),
+                              ("cubic_spline", True, 6), ("cubic_spline", "constant", 4)):
+        while True:
+            d = {"x0": lit(rng.randint(1, 5), -1, 2), "dx": [lit(rng.randint(1, 3), -1, 2, False) for _ in range(n - 1)],
+                 "y": [lit(rng.randint(1, 6), -2, 3) for _ in range(n)], "interp": interp, "extrap": extrap}
+            xs = [Fraction(d["x0"])]
+            for dx in d["dx"]:
+                xs.append(xs[-1] + Fraction(dx))
+            ys = [Fraction(y) for y in d["y"]]
+            slopes = [(ys[i + 1] - ys[i]) / (xs[i + 1] - xs[i]) for i in range(n - 1)]
+            # not aligned, and the first and last segments differ by a visible amount
+            if abs(slopes[0] - slopes[-1]) > Fraction(1, 100) * max(abs(slopes[0]), abs(slopes[-1])) and len(set(slopes)) == n - 1:
+                break
+        out.append({"prog": {"kind": "data", "dsl": rng.randint(0, 2), "material": rng.random() < 0.5,
+                             "useqt": rng.random() < 0.5, "outname": rng.randint(0, 2), "ob": None, "opb": None,
+                             "event": None, "longcat": "none",
+                             "inputs": [{"dom": "sym", "gloss": rng.random() < 0.5, "b": None, "pb": None}],
+                             "data": d, "params": [], "overrides": [], "consts": [], "statics": [], "temps": []},
+                    "probe_seed": rng.randint(0, 2 ** 31 - 1)})
+    return out
+
+
+def run_tables(u):
+    cases = fixed_tables(SEED)
+    MG.prebuild([c["prog"] for c in cases], ROOT, JOBS)
+    for c in cases:
+        try:
+            r = check_case(c)
+        except Reject:
+            u.discard("tables")
+            continue
+        if r.ok:
+            u.case("tables", c, r.nontrivial, r.classes, r.errs, r.sample)
+        else:
+            u.fail("tables", r.key, r.msg, c)
+    MG.SHRINK["failed"] = False  # these cases are not shrunk; the Hypothesis run keeps its own budget
+
+
 def replay_repo(case):
     for e in REPO_FILES + REPO_THOROUGH:
         if e[0] == case["file"]:
@@ -483,11 +538,13 @@ def replay_repo(case):
 
 
 def main():
-    replay_main({"gen": check_case, "repo": replay_repo})
+    replay_main({"gen": check_case, "tables": check_case, "repo": replay_repo})
     u = Unit("C37_matprop")
     n = int(param("cases", 40))
     strat = MG.strategies("c37")
     only = os.environ.get("VERIF_ONLY", "")
+    if only in ("", "tables"):
+        run_tables(u)
     if only in ("", "gen"):
         import time
         t0 = time.time()
